@@ -13,6 +13,10 @@ type Op struct {
 	Pending bool  // never returned (blocked at the end of the execution)
 	In      interface{}
 	Out     interface{}
+	// After: 1 + index of an operation that must be linearized before this one (0 = none).  For
+	// commands pipelined on one connection: they take effect in the order they were written, but
+	// command i+1 may take effect before the client has seen the reply to command i.
+	After int
 }
 
 type Model struct {
@@ -59,6 +63,9 @@ func Check(ops []Op, m Model, final func(state interface{}) bool) (bool, []int) 
 					ok = false
 					break
 				}
+			}
+			if ops[i].After > 0 && done>>uint(ops[i].After-1)&1 == 0 {
+				ok = false
 			}
 			if !ok {
 				continue
